@@ -6,8 +6,8 @@
 # batch and removed by `tools/run_mutant.sh --clean`.
 set -u
 VERIF_DIR="$(cd "$(dirname "${BASH_SOURCE[0]}")/.." && pwd)"
-WT=/tmp/aisverif-mut
-MUT_TARGET=/tmp/aisverif-mut-target
+WT="${MUT_WT:-/tmp/aisverif-mut}"
+MUT_TARGET="${MUT_TARGET:-/tmp/aisverif-mut-target}"
 if [ "${1:-}" = "--clean" ]; then
   git -C /repo worktree remove --force "$WT" 2>/dev/null; rm -rf "$WT" "$MUT_TARGET"; git -C /repo worktree prune; exit 0
 fi
